@@ -185,7 +185,7 @@ func concRound(seed int64, round int, base string) (res concResult) {
 			}
 			// read until the response of the final fence (sent by the coordinator)
 			m, err := c.ReadResponse()
-			if err != nil || m.Status != 200 {
+			if err != nil || m.Status/100 != 2 {
 				problem(fmt.Sprintf("stable connection %d: final fence: %v", i, err))
 			}
 		}(i, c, isWriter)
@@ -274,7 +274,7 @@ func concRound(seed int64, round int, base string) (res concResult) {
 					return
 				}
 				for k := crnd.Intn(3); k > 0; k-- {
-					if _, err := c.Do("GET", fenceTarget, "", nil); err != nil {
+					if _, err := c.Do("GET", f.fence, "", nil); err != nil {
 						problem("churn fence: " + err.Error())
 						break
 					}
@@ -307,7 +307,7 @@ func concRound(seed int64, round int, base string) (res concResult) {
 		if dead[i] {
 			continue
 		}
-		if err := c.Send(refctl.BuildRequest("GET", fenceTarget, "", nil)); err != nil {
+		if err := c.Send(refctl.BuildRequest("GET", f.fence, "", nil)); err != nil {
 			problem(fmt.Sprintf("final fence on %d: %v", i, err))
 		}
 	}
@@ -448,6 +448,8 @@ func mergeConc(r *vf.Run, results []concResult, build string) {
 		}
 		for _, v := range res.Viol {
 			v.Witness["build"] = build
+			v.Witness["round"] = res.Round
+			v.Witness["workload"] = res.Descriptor + "; 3 goroutines open short-lived connections that subscribe to every written characteristic and close (FIN/RST); 1 connection toggles a subscription"
 			r.Violation(v.Sig, v.What, v.Witness)
 		}
 		r.Nontrivial(fmt.Sprintf("conc %s %d %s", build, res.Round, res.Descriptor))
